@@ -30,7 +30,7 @@ fn tainted(p: &Prog) -> HashSet<usize> {
     let mut t = HashSet::new();
     for (i, op) in p.ops.iter().enumerate() {
         let f = p.first_out(i);
-        if op.kind == OpK::Random || op.ins.iter().any(|v| t.contains(v)) {
+        if op.kind == OpK::Random || op.kind == OpK::RandomLike || op.ins.iter().any(|v| t.contains(v)) {
             for k in 0..op.kind.n_out() {
                 t.insert(f + k);
             }
@@ -139,7 +139,7 @@ fn check_program(ctx: &Ctx, p: &Prog, optimize: bool, st: &mut St) {
     // a random source must still vary between runs after optimisation
     if has_random {
         st.random_programs += 1;
-        if let Some(ri) = p.ops.iter().position(|o| o.kind == OpK::Random) {
+        if let Some(ri) = p.ops.iter().position(|o| o.kind == OpK::Random || o.kind == OpK::RandomLike) {
             let v = p.first_out(ri);
             if let Some(id) = l.ids[v] {
                 let mk = || -> Vec<(NodeId, ValueOrView)> { (0..p.n_inputs).map(|i| (l.ids[i].unwrap(), ValueOrView::from(tensors[i].view()))).collect() };
@@ -163,11 +163,11 @@ pub fn run(ctx: Ctx) -> ! {
         check_program(&ctx, &p, case["optimize"].as_bool().unwrap_or(false), &mut st);
         ctx.finish("exploration", json!({"evaluations": st.compositions.max(1), "distinct_nontrivial": 2, "rule": "replay", "samples": [case]}), vec![]);
     }
-    let kinds = [OpK::Relu, OpK::Identity, OpK::Transpose, OpK::Split, OpK::Add, OpK::Sub, OpK::Mul, OpK::MatMul, OpK::Concat, OpK::IfAdd, OpK::Random];
+    let kinds = [OpK::Relu, OpK::Identity, OpK::Transpose, OpK::Split, OpK::Add, OpK::Sub, OpK::Mul, OpK::MatMul, OpK::Concat, OpK::IfAdd, OpK::Random, OpK::RandomLike];
     let mut progs = Vec::new();
     prog::enumerate(2, 1, 1, &kinds, &mut progs);
     prog::enumerate(2, 1, 2, &kinds, &mut progs);
-    let three: &[OpK] = if ctx.tier.is_thorough() { &[OpK::Relu, OpK::Split, OpK::Add, OpK::Sub, OpK::MatMul, OpK::IfAdd, OpK::Random] } else { &[OpK::Relu, OpK::Add, OpK::Random] };
+    let three: &[OpK] = if ctx.tier.is_thorough() { &[OpK::Relu, OpK::Split, OpK::Add, OpK::Sub, OpK::MatMul, OpK::IfAdd, OpK::Random, OpK::RandomLike] } else { &[OpK::Relu, OpK::Add, OpK::Random, OpK::RandomLike] };
     let mut p3 = Vec::new();
     prog::enumerate(2, 1, 3, three, &mut p3);
     progs.extend(p3.into_iter().filter(prog::all_ops_used));
@@ -199,7 +199,7 @@ pub fn run(ctx: Ctx) -> ! {
     let cov = json!({
         "evaluations": t.compositions,
         "distinct_nontrivial": t.partial_nonempty,
-        "rule": "programs (<=2 ops over 11 kinds incl. RandomUniform and If, 3 ops over a reduced set) x {optimize off,on} x every subset of the 2 graph inputs x output sets {all op outputs, each single op output, inputs+constants}; non-trivial = partial_run calls that returned at least one value",
+        "rule": "programs (<=2 ops over 12 kinds incl. RandomUniform, RandomUniformLike (a non-deterministic operator WITH an input) and If, 3 ops over a reduced set) x {optimize off,on} x every subset of the 2 graph inputs x output sets {all op outputs, each single op output, inputs+constants}; non-trivial = partial_run calls that returned at least one value",
         "samples": samples.take(),
         "exhaustive": true,
         "program_loads": t.programs,
